@@ -155,7 +155,8 @@ Section Top2.
     copy_rec (S k) c o sl src [] (render dcs) false [] [] s = (s', r) ->
     (stays_ok dr s s' r /\ (ok_res r -> s_parents s' = [])) /\ rok s'.
   Proof.
-    intros C L Hst Hsrc Hsp Rk H. cbn [copy_rec] in H. rewrite bind_run, sys_run in H. cbn [fst snd] in H. rewrite sys_lstat_fs in H.
+    intros C L Hst Hsrc Hsp Rk H. cbn [copy_rec] in H. rewrite bind_run in H. unfold get_fs at 1 in H.
+    rewrite bind_run, sys_run in H. cbn [fst snd] in H. rewrite sys_lstat_fs in H.
     assert (Hdr : is_dir (s_fs s) dr = true) by (eapply chain_end_dir; apply (cx_root _ _ _ _ _ C)).
     assert (Hsame : forall s1 (r1 : unit + N), s_fs s1 = s_fs s -> s_links s1 = s_links s -> s_parents s1 = s_parents s ->
               stays_ok dr s s1 r1 /\ (ok_res r1 -> s_parents s1 = [])).
